@@ -322,6 +322,64 @@ def sweep(ck, rng, n, stats, directed=False):
     return disagree, cases, metas
 
 
+def twins(ck, rng, n, stats):
+    """two related models that define field-identical composites (margin = revenue - cost, rate = margin / revenue) over their
+    own measures: in one query, and in consecutive queries on ONE SQLGenerator, each composite must be the formula over the
+    components of ITS model (components selected in the same query, compared in exact rationals) — on the real code"""
+    from fractions import Fraction
+    from sidemantic import Dimension, Metric, Model, Relationship, SemanticLayer
+    from sidemantic.sql.generator import SQLGenerator
+
+    def mets(qual):
+        p = (lambda x: x)      # components are referenced unqualified: resolution must go to the metric's own model
+        return [Metric(name="revenue", agg="sum", sql="amount"), Metric(name="cost", agg="sum", sql="cost"),
+                Metric(name="margin", type="derived", sql=f"{p('revenue')} - {p('cost')}"), Metric(name="rate", type="ratio", numerator="margin", denominator="revenue")]
+    for _ in range(n):
+        layer = SemanticLayer(auto_register=False)
+        first, second = ("orders", "refunds") if rng.random() < 0.5 else ("refunds", "orders")
+        models = {"orders": Model(name="orders", table="orders_t", primary_key="id", dimensions=[Dimension(name="region", type="categorical")], metrics=mets("orders")),
+                  "refunds": Model(name="refunds", table="refunds_t", primary_key="id", dimensions=[Dimension(name="reason", type="categorical")], metrics=mets("refunds"),
+                                   relationships=[Relationship(name="orders", type="many_to_one", foreign_key="orders_id")])}
+        layer.add_model(models[first]); layer.add_model(models[second])
+        con = layer.conn
+        con.execute("SET threads=1")
+        con.execute("create table orders_t(id int, region varchar, amount int, cost int)")
+        con.execute("create table refunds_t(id int, orders_id int, reason varchar, amount int, cost int)")
+        no = rng.randint(2, 6)
+        for i in range(1, no + 1):
+            con.execute("insert into orders_t values (?,?,?,?)", [i, rng.choice(["eu", "us", None]), rng.choice([50, 70, 100, 0, None]), rng.choice([20, 30, 60, 5])])
+        for i in range(1, rng.randint(1, 7)):
+            con.execute("insert into refunds_t values (?,?,?,?,?)", [i, rng.randint(1, no), rng.choice(["x", "y"]), rng.choice([5, 7, 10, 1]), rng.choice([1, 2, 3, None])])
+        gen = SQLGenerator(layer.graph, dialect="duckdb")
+        dims = rng.choice([[], ["orders.region"]])
+        comp = ["revenue", "cost", "margin", "rate"]
+        joint = [f"{m}.{c}" for m in rng.sample(["orders", "refunds"], 2) for c in rng.sample(comp, 4)]
+        plans = [("one query", [joint]), ("consecutive queries on one generator", [[f"{m}.{c}" for c in rng.sample(comp, 4)] for m in rng.sample(["orders", "refunds"], 2)])]
+        for label, queries in plans:
+            for metrics in queries:
+                try:
+                    cur = con.execute(gen.generate(metrics=metrics, dimensions=dims))
+                    cols, rows = [d[0] for d in cur.description], cur.fetchall()
+                except Exception as e:  # noqa: BLE001
+                    ck.fail_input(f"identically defined composites of two models ({label}): {type(e).__name__}", {"metrics": metrics, "dims": dims, "order": [first, second], "error": repr(e)[:300]})
+                    break
+                stats["twin_queries"] += 1
+                bad = None
+                for r in rows:
+                    v = dict(zip(cols, r))
+                    for m in {x.split(".")[0] for x in metrics}:
+                        g = lambda c: v.get(f"{m}_{c}", v.get(c))
+                        rev, cost, margin, rate = g("revenue"), g("cost"), g("margin"), g("rate")
+                        want_margin = None if rev is None or cost is None else rev - cost
+                        if margin != want_margin:
+                            bad = f"{m}.margin = {margin}, its components give {rev} - {cost}"
+                        elif margin is not None and rev not in (None, 0) and (rate is None or abs(Fraction(rate).limit_denominator(10**9) - Fraction(margin, rev)) > Fraction(1, 10**6)):
+                            bad = f"{m}.rate = {rate}, its components give {margin} / {rev}"
+                if bad:
+                    ck.fail_input(f"identically defined composites of two models ({label}): {bad}", {"metrics": metrics, "dims": dims, "order": [first, second], "rows": str(rows)[:500], "columns": cols})
+                    break
+
+
 def run(ck: Check):
     ck.prove("SideVerif.Properties.C06")
     rng = ck.rng
@@ -333,6 +391,7 @@ def run(ck: Check):
         sweep(ck, rng, 200, stats, directed=True)
     if disagree == 0:
         ck.obligation("correspondence C06: SQLGenerator vs genC (structural)", True, f"{len(cases)} cases")
+    twins(ck, rng, 150 if thorough else 25, stats)
     ck.coverage.update({
         "evaluations": len(cases), "distinct_nontrivial": stats["structural_ok"],
         "rule": "single model with 2-3 leaf measures named by collision-prone schemes (prefix/suffix/substring of one another, equal to column names, SQL function words), 1-3 nested ratio/derived model metrics (qualified and unqualified component references, fill_nulls_with), 0-2 graph-level metrics (agg / ratio / derived); each composite queried together with all leaf measures, with and without a dimension",
